@@ -13,6 +13,8 @@ def parse_goals(pid):
     path = os.path.join(ROOT, 'properties', pid + '.goals')
     goals = []; meta = {'not_decided': [], 'level': 'proof', 'assumptions': [], 'trusted': []}
     for raw in open(path):
+        m = re.match(r'^#\s*category:\s*(\w+)', raw)
+        if m: meta['level'] = m.group(1)
         line = raw.split('#')[0].strip()
         if not line: continue
         head, _, rest = line.partition(' ')
